@@ -298,6 +298,30 @@ func TestVerifC06(t *testing.T) {
 			t.Fatalf("self-test: oracle did not flag a missing sample (%q)", sig)
 		}
 	}
+	if os.Getenv("VERIF_RACE") == "1" {
+		// Free-running pass under the race detector (sampling of schedules, not model checking): the
+		// same bodies with real goroutines and plain primitives; the runner turns a race report into a
+		// violation. The oracle is evaluated too.
+		iters := vx.Pick(r, 6, 40)
+		n := 0
+		for _, sc := range scs {
+			for i := 0; i < iters && !r.Expired(); i++ {
+				obs := &c06Obs{}
+				c06Body(sc, obs)()
+				n++
+				if sig, msg := c06Eval(sc, vsched.Trace{}, obs); sig != "" {
+					r.Violation("free-running/"+sig, fmt.Sprintf("scenario %s (free-running): %s", sc.Name, msg), map[string]any{"scenario": sc.Name, "free_running": true})
+				}
+				c06Cleanup(obs)
+			}
+		}
+		r.Count("race_pass_iterations", n)
+		r.Count("states", 1)
+		r.Count("transitions", 1)
+		r.Count("traces_validated_against_impl", 0)
+		r.Sample(map[string]any{"race_pass": "free-running iterations of every scenario under -race", "iterations": n})
+		return
+	}
 	bound := vx.Pick(r, 1, 2)
 	deadline := time.Now().Add(time.Duration(vx.Pick(r, 75, 1300)) * time.Second)
 	var execs, points int64
